@@ -315,7 +315,7 @@ func (g *tgen) descValue() string {
 func quoteGql(s string) string {
 	var sb strings.Builder
 	sb.WriteByte('"')
-	const hexd = "0123456789ABCDEF"
+	const hexd = "0123456789abcdef"
 	for i := 0; i < len(s); i++ {
 		b := s[i]
 		switch {
